@@ -133,6 +133,24 @@ func cmdHelpers(args []string) int {
 			fmt.Println("not a waitsem case")
 			return 2
 		}
+		if strings.HasSuffix(*replay, ".ycase") {
+			for _, l := range strings.Split(string(b), "\n") {
+				var sd int64
+				if n, _ := fmt.Sscanf(l, "twoctx seed=%d", &sd); n == 1 {
+					fails, line := helpers.TwoCtxScenario(sd)
+					fmt.Println(line)
+					for _, f := range fails {
+						fmt.Println("MONITOR C20:", f)
+					}
+					if len(fails) > 0 {
+						return 1
+					}
+					return 0
+				}
+			}
+			fmt.Println("not a two-context case")
+			return 2
+		}
 		if strings.HasSuffix(*replay, ".xcase") {
 			for _, l := range strings.Split(string(b), "\n") {
 				var sd int64
